@@ -55,7 +55,6 @@ DEFECTS = {
     "annonly": ("NoAnnOnly", dict(_D, STMTS='{"def", "annonly"}')),
     "classmethod-cls": ("NoClassmethodCls", dict(_D, STMTS='{"def", "class"}', DECOS='{"none", "static", "class"}')),
     "import-self": ("NoImportSelf", dict(_D, MAININS='{"init", "sub"}', STMTS='{"import", "from"}')),
-    "double-cleandoc": ("NoDoubleCleandoc", dict(_D, DOCS='{"none", "one", "std", "nl", "deep", "ragged"}')),
     "base-rebound": ("NoBaseRebound", dict(_D, MAXSTMTS=3, STMTS='{"class", "assign", "from"}', ASNAMES='{"-", "a"}')),
     "ref": ("NoRef", dict(_D, STMTS='{"def", "assign", "ref"}')),
     "from-dot-in-class": ("NoFromDotInClass", dict(_D, MAININS='{"init", "sub"}', STMTS='{"class", "from"}', IMPORTS='{"OK", "other"}')),
@@ -361,9 +360,11 @@ def validate_doctable(res):
             die(f"C17: DocLines({shape}) differs between spec and renderer: {raw} vs {DOC_LINES[shape]}")
         text = doc_text(shape)
         once = _lines(inspect.cleandoc(text.rstrip()))
-        twice = _lines(inspect.cleandoc(inspect.cleandoc(text).rstrip()))
-        if once != [(x["ind"], x["txt"]) for x in row["once"]] or twice != [(x["ind"], x["txt"]) for x in row["twice"]]:
-            die(f"C17: spec Cleandoc disagrees with inspect.cleandoc on shape {shape}: once {once} vs {row['once']}, twice {twice} vs {row['twice']}")
+        twice = _lines(inspect.cleandoc(inspect.cleandoc(text).rstrip()))  # what cleaning twice would give (not idempotent on "deep")
+        if once != [(x["ind"], x["txt"]) for x in row["once"]] or once != [(x["ind"], x["txt"]) for x in row["dyn"]]:
+            die(f"C17: spec Cleandoc disagrees with inspect.cleandoc on shape {shape}: {once} vs static {row['once']} / dynamic {row['dyn']}")
+        if shape == "deep" and twice == once:
+            die("C17: the 'deep' docstring shape no longer distinguishes one cleandoc pass from two")
 
 
 class Replayer:
